@@ -70,7 +70,7 @@ var c12 = Register("C12", "C12.bid", func(a c12Args) *Violation {
 		}
 	}
 	// round trip, bit for bit
-	var back d128.Decimal
+	back := prior(hashWords(a.V.Hi, a.V.Lo, 1)) // the receiver's earlier value must not leak into the result
 	keep := append([]byte(nil), b...)
 	if err := back.UnmarshalBinary(b); err != nil {
 		return violf("UnmarshalBinary(Marshal(%s)): %v", a.V, err)
@@ -89,7 +89,7 @@ var c12 = Register("C12", "C12.bid", func(a c12Args) *Violation {
 	var raw [16]byte
 	binary.BigEndian.PutUint64(raw[:8], a.V.Hi)
 	binary.BigEndian.PutUint64(raw[8:], a.V.Lo)
-	var fromRaw d128.Decimal
+	fromRaw := prior(hashWords(a.V.Hi, a.V.Lo, 2))
 	if err := fromRaw.UnmarshalBinary(raw[:]); err != nil {
 		return violf("UnmarshalBinary(% x): %v", raw, err)
 	}
@@ -136,7 +136,8 @@ var c12len = Register("C12", "C12.length", func(a c12LenArgs) *Violation {
 	st := S("C12", "length")
 	st.Eval(1)
 	keep := append([]byte(nil), a.Data...)
-	var d d128.Decimal
+	was := prior(hashBytes(a.Data))
+	d := was
 	err := d.UnmarshalBinary(a.Data)
 	if !bytes.Equal(keep, a.Data) {
 		return violf("UnmarshalBinary modified its input")
@@ -146,7 +147,7 @@ var c12len = Register("C12", "C12.length", func(a c12LenArgs) *Violation {
 	}
 	if len(a.Data) != 16 {
 		st.NT(hashBytes(a.Data), func() any { return map[string]any{"len": len(a.Data)} })
-		if d != (d128.Decimal{}) {
+		if d != was {
 			// receiver state on error is not claimed; only counted
 			st.Class("receiver-changed-on-error")
 		}
@@ -246,7 +247,7 @@ var c12ctor = Register("C12", "C12.constructed", func(a c12CtorArgs) *Violation 
 		if steering != (n.Coef.BitLen() > 113) {
 			return violf("%s of %s: steering form %v for a %d-bit coefficient (% x)", route, want, steering, n.Coef.BitLen(), b)
 		}
-		var back d128.Decimal
+		back := prior(hashBytes(b))
 		if err := back.UnmarshalBinary(b); err != nil || back != d {
 			return violf("%s of %s: Unmarshal(Marshal) differs", route, want)
 		}
@@ -263,7 +264,7 @@ var c12ctor = Register("C12", "C12.constructed", func(a c12CtorArgs) *Violation 
 	if v := check("Parse", p); v != nil {
 		return v
 	}
-	var viaCompose d128.Decimal
+	viaCompose := prior(hashString(a.Coef) + uint64(a.Exp))
 	if err := viaCompose.Compose(0, a.Neg, c.Bytes(), int32(a.Exp)); err != nil {
 		return violf("Compose(%s): %v", want, err)
 	}
